@@ -86,3 +86,36 @@ func checkC13(c *Ctx) {
 	c.floor("T-TABLE(_ticker.run)", 6, "5 cases + initial state")
 	c.floor("T-FLOW(period)", 6, "period stores and uses")
 }
+
+func init() {
+	props = append(props, propSpec{ID: "C16", Level: "other", Run: checkC16,
+		Explanation: "Decision tables of monitor.run (prelude: Done|Ready; loop: Done|Events with type dispatch) compared with the reference: OnInitialize exactly once, before the event loop, with the cache list taken at readiness; exactly one callback per event chosen by the event type with that event's resource; no callback on the shutdown/early-close paths; no goroutine spawned; Handler.On* invoked only in monitor.run; Done() is the monitor's own lifecycle (closed by the deferred ShutdownCompleted after the last callback); typed monitors forward each slot to the same-named typed callback once.",
+		Assumptions: []string{"handler behaviour and overflow drops (C10) are outside the claim"}})
+}
+
+func checkC16(c *Ctx) {
+	checkMonitorTable(c)
+	checkHandlerCallers(c)
+	checkMonitorAPI(c)
+	rels := []string{"types/pod"}
+	if c.Tier == "thorough" {
+		rels = typedRels(c)
+	}
+	for _, r := range rels {
+		checkTypedMonitor(c, r)
+	}
+	c.floor("T-TABLE(monitor.run)", 9, "3 prelude + 6 loop cases")
+	c.floor("T-WHO(Handler)", 5, "4 callback sites")
+	c.floor("T-SHAPE(typed-monitor)", 4, "4 slots")
+}
+
+// typedRels: module-relative paths of the generated typed packages.
+func typedRels(c *Ctx) []string {
+	var out []string
+	for _, r := range c.P.repoRels() {
+		if len(r) > 6 && r[:6] == "types/" && r != "types/gen" && c.P.fileOf(r, "generated.go") != nil {
+			out = append(out, r)
+		}
+	}
+	return out
+}
